@@ -164,6 +164,10 @@ func (g *slGen) step() {
 		}
 		g.vars[k] = slView{arr: a, ln: ln, cp: ln, capKnown: true}
 		g.add(fmt.Sprintf("%s = []%s{%s}", name(k), g.h.Elem, strings.Join(lits, ", ")))
+	case c < 6 && g.r.Chance(1, 3): // a literal of constants evaluated again and again: every evaluation yields a fresh array
+		a := &slArray{data: []int{1, 2, 3, 4, 5, 6, 7, 8, 9}}
+		g.vars[k] = slView{arr: a, ln: 9, cp: 9, capKnown: true}
+		g.add(fmt.Sprintf("%s = lit9()", name(k)))
 	case c < 6 && g.r.Bool(): // the slice a variadic function received (a fresh array per call, capacity == length)
 		ln := g.r.Intn(4)
 		a := &slArray{}
@@ -341,6 +345,7 @@ func c11Script(h slHistory) string {
 		h.Elem = "int"
 	}
 	fmt.Fprintf(&sb, "func pack(xs ...%s) []%s {\n\treturn xs\n}\n\n", h.Elem, h.Elem)
+	fmt.Fprintf(&sb, "func lit9() []%s {\n\treturn []%s{1, 2, 3, 4, 5, 6, 7, 8, 9}\n}\n\n", h.Elem, h.Elem)
 	fmt.Fprintf(&sb, "func hist(z int) {\n\tvar t []%s\n\tvar w %s\n\t_, _ = t, w\n", h.Elem, h.Elem)
 	for i := 0; i < h.NVars; i++ {
 		fmt.Fprintf(&sb, "\tvar s%d []%s\n", i, h.Elem)
